@@ -168,7 +168,8 @@ def run_case(case):
         tgt = case["target"]
         vol = None
         if tgt == "path":
-            z = py7zr.SevenZipFile(path, "w", filters=filters, password=password)
+            # exclusive creation ("x") for every other path target: the same session, the file must not exist before
+            z = py7zr.SevenZipFile(path, "x" if case.get("seed", 0) % 2 else "w", filters=filters, password=password)
         elif tgt == "bytesio":
             bio = io.BytesIO()
             z = py7zr.SevenZipFile(bio, "w", filters=filters, password=password)
